@@ -408,6 +408,12 @@ type pathVisitor struct {
 	s    sink
 	path string
 	cnt  *int
+	kept *[]keptList // the node lists handed to VisitMany, kept by the visitor as they are
+}
+
+type keptList struct {
+	path  string
+	nodes []ast.Node
 }
 
 func (v *pathVisitor) Visit(n ast.Node) ast.Visitor {
@@ -417,13 +423,32 @@ func (v *pathVisitor) Visit(n ast.Node) ast.Visitor {
 }
 func (v *pathVisitor) VisitMany(ns []ast.Node) ast.Visitor {
 	v.s.tag(fmt.Sprintf("many %s %d", v.path, len(ns)))
+	if v.kept != nil {
+		*v.kept = append(*v.kept, keptList{v.path, ns})
+	}
 	return v
 }
 func (v *pathVisitor) Field(name string) ast.Visitor {
-	return &pathVisitor{s: v.s, path: v.path + "." + name, cnt: v.cnt}
+	return &pathVisitor{s: v.s, path: v.path + "." + name, cnt: v.cnt, kept: v.kept}
 }
 func (v *pathVisitor) Index(i int) ast.Visitor {
-	return &pathVisitor{s: v.s, path: fmt.Sprintf("%s[%d]", v.path, i), cnt: v.cnt}
+	return &pathVisitor{s: v.s, path: fmt.Sprintf("%s[%d]", v.path, i), cnt: v.cnt, kept: v.kept}
+}
+
+// dumpKept writes the node lists a visitor kept, as they look after the traversal.
+func dumpKept(s sink, kept []keptList) {
+	for _, k := range kept {
+		s.tag("kept " + k.path)
+		s.num(int64(len(k.nodes)))
+		for _, n := range k.nodes {
+			if isNilNode(n) {
+				s.tag("<nil>")
+				continue
+			}
+			s.tag(fmt.Sprintf("%T", n))
+			guard(s, "Pos()", func() { s.num(int64(n.Pos())) })
+		}
+	}
 }
 
 func maskBit(seed uint64, i int) bool {
@@ -477,12 +502,15 @@ func writeVariant(s sink, sub *subject, v int) {
 		})
 	case vWalkPaths:
 		cnt := 0
+		var kept []keptList
 		each(func(i int, top ast.Node) {
-			guard(s, "Walk", func() { ast.Walk(top, &pathVisitor{s: s, path: fmt.Sprintf("$%d", i), cnt: &cnt}) })
+			guard(s, "Walk", func() { ast.Walk(top, &pathVisitor{s: s, path: fmt.Sprintf("$%d", i), cnt: &cnt, kept: &kept}) })
 		})
 		if len(nodes) > 1 {
-			guard(s, "WalkMany", func() { ast.WalkMany(nodes, &pathVisitor{s: s, path: "$", cnt: &cnt}) })
+			guard(s, "WalkMany", func() { ast.WalkMany(nodes, &pathVisitor{s: s, path: "$", cnt: &cnt, kept: &kept}) })
 		}
+		// the visitor kept the lists it was given: they must still be what it was given
+		dumpKept(s, kept)
 	case vInspectMaskA, vInspectMaskB:
 		seed := uint64(0xa5a5)
 		if v == vInspectMaskB {
@@ -670,6 +698,13 @@ type opResult struct {
 // runOp executes op k.  shared != nil: skip the parse and use that subject (read-only
 // sharing scenario).
 func runOp(k opKey, shared *subject, wantText bool) opResult {
+	return runOpX(k, shared, wantText, false)
+}
+
+// runOpX: fresh = hand the library freshly allocated copies of the path and the text (a
+// caller that builds its input for every call: the memory can be collected and its address
+// reused afterwards, which a cache keyed by string identity would confuse).
+func runOpX(k opKey, shared *subject, wantText, fresh bool) opResult {
 	h := newHashSink()
 	var s sink = h
 	var ts *textSink
@@ -679,7 +714,11 @@ func runOp(k opKey, shared *subject, wantText bool) opResult {
 	}
 	sub := shared
 	if sub == nil {
-		sub = callEntry(int(k.Entry), pathOf(k), pool.inputs[k.Input].text)
+		path, text := pathOf(k), pool.inputs[k.Input].text
+		if fresh {
+			path, text = string(append([]byte(nil), path...)), string(append([]byte(nil), text...))
+		}
+		sub = callEntry(int(k.Entry), path, text)
 	}
 	writeBase(s, sub)
 	if k.Variant != vBase {
